@@ -372,6 +372,13 @@ def receiver_fns(prog):
     return run, runner
 
 
+def waiter_fn(prog, owner):
+    """The helper of `owner` that awaits Store::notify_read (named `waiter` in the repository), found by what it does."""
+    cands = [f for f in prog.methods_of(owner) if not f.derived and not any(p["k"] == "pbind" and p["name"] == "self" for p in f.params)
+             and any(n["k"] == "mcall" and "store::Store::notify_read" in callee_paths(n) for n in f.nodes())]
+    return cands[0] if len(cands) == 1 else prog.fn(owner + "::waiter")
+
+
 class AuxReport:
     """Minimal Report stand-in used to re-evaluate another property's rules and fold selected results."""
 
